@@ -31,7 +31,8 @@ warnings.simplefilter("ignore")
 # ---- trace item tags (shared with Model/MainLoop.v, enc_tev) ----
 T_START, T_STOP, T_SETMOUSE, T_HOOK, T_UNHOOK, T_DRAW, T_CLEAR, T_COLSROWS, T_WRITE = 1, 2, 3, 4, 5, 6, 7, 8, 9
 T_FILTER, T_KEYPRESS, T_MOUSE, T_UNHANDLED, T_ALARM, T_PIPE, T_FILE, T_RENDER, T_QUIT = 10, 11, 12, 13, 14, 15, 16, 17, 18
-T_GETINPUT, T_TIMEOUTS, T_PSTART, T_PSTOP = 19, 20, 21, 22
+T_GETINPUT, T_TIMEOUTS, T_PSTART, T_PSTOP, T_WAIT = 19, 20, 21, 22, 23
+BASE_EXC = 1000       # fault values >= BASE_EXC raise a class derived from BaseException (not Exception)
 
 CTRL_L = 12
 MODES = {1049: "alt", 25: "cursor", 1000: "mouse", 1002: "mouse2", 1006: "mouse6", 2004: "paste", 1004: "focus"}
@@ -71,6 +72,67 @@ class UserExc(Exception):
         self.ident = ident
 
 
+class UserBaseExc(BaseException):
+    """an application exception outside the Exception hierarchy (like KeyboardInterrupt / SystemExit)"""
+
+    def __init__(self, ident):
+        BaseException.__init__(self, ident)
+        self.ident = ident
+
+
+class Grid:
+    """a very small terminal: enough of a VT100 to see what raw_display.Screen.draw_screen painted"""
+    TOK = re.compile(r"\x1b\[([0-9;?]*)([@-~])|\x1b[()](.)|\x1b(.)|([\x00-\x1a\x1c-\x1f])|([^\x00-\x1f]+)", re.S)
+
+    def __init__(self, cols, rows):
+        self.cols, self.rows = cols, rows
+        self.bufs = [[[" "] * cols for _ in range(rows)] for _ in (0, 1)]
+        self.alt = 0
+        self.x = self.y = 0
+
+    def feed(self, data):
+        for m in self.TOK.finditer(data):
+            params, final, _cs, _esc, ctl, text = m.groups()
+            if final is not None:
+                if final == "H":
+                    ps = [int(x) if x else 1 for x in (params.split(";") + ["", ""])[:2]]
+                    self.y = min(max(ps[0] - 1, 0), self.rows - 1)
+                    self.x = min(max(ps[1] - 1, 0), self.cols - 1)
+                elif final == "K" and params in ("", "0"):
+                    row = self.bufs[self.alt][self.y]
+                    for i in range(min(self.x, self.cols), self.cols):
+                        row[i] = " "
+                elif final in "hl" and params.startswith("?"):
+                    for num in params[1:].split(";"):
+                        if num in ("1049", "47"):
+                            self.alt = 1 if final == "h" else 0
+                            if final == "h":
+                                self.bufs[1] = [[" "] * self.cols for _ in range(self.rows)]
+                                self.x = self.y = 0
+            elif ctl is not None:
+                if ctl == "\r":
+                    self.x = 0
+                elif ctl == "\n":
+                    self.y = min(self.y + 1, self.rows - 1)
+                elif ctl == "\b":
+                    self.x = max(self.x - 1, 0)
+            elif text is not None:
+                row = self.bufs[self.alt][self.y]
+                for ch in text:
+                    if self.x >= self.cols:
+                        self.x = self.cols - 1
+                    row[self.x] = ch
+                    self.x += 1
+
+    def garble(self):
+        """something else scribbled over the terminal (why a user presses ctrl-L)"""
+        self.bufs[self.alt] = [["?"] * self.cols for _ in range(self.rows)]
+
+    def shows(self, lines):
+        want = [(lines[i] if i < len(lines) else "").ljust(self.cols)[:self.cols] for i in range(self.rows)]
+        return ["".join(r) for r in self.bufs[self.alt]] == want
+
+
 # =====================================================================================================
 #  in-process sessions (run inside the worker)
 # =====================================================================================================
@@ -83,6 +145,8 @@ class Session:
         self.n = 0                       # global callback invocation index
         self.plan = {int(k): v for k, v in case.get("plan", {}).items()}
         self.raised = []                 # exception objects we raised (identity check)
+        self.shown = []                  # per wait point: does the terminal show the widget state?
+        self.wstate = 0                  # the widget's state (number of inputs it handled); its text is S<n>
 
     def cb(self, item):
         """one callback invocation: trace it, then fault if the plan says so"""
@@ -92,7 +156,7 @@ class Session:
         if i in self.plan:
             import urwid
             f = self.plan[i]
-            e = urwid.ExitMainLoop() if f == 0 else UserExc(f)
+            e = urwid.ExitMainLoop() if f == 0 else (UserBaseExc(f) if f >= BASE_EXC else UserExc(f))
             self.raised.append(e)
             raise e
 
@@ -101,22 +165,36 @@ def make_widget(S, wc, urwid):
     keys = {int(k): v for k, v in wc.get("keys", {}).items()}
     mouse = set(wc.get("mouse", []))
 
+    cache = {}
+
     def keypress(self, size, key):
         k = key_from_py(key)
         S.cb([T_KEYPRESS, k[1]])
         r = keys.get(k[1], k[1])
-        return None if r == 0 else key_to_py([1, r, 0, 0])
+        if r == 0:
+            S.wstate += 1            # the widget handled the key: it changed
+            return None
+        return key_to_py([1, r, 0, 0])
 
     def mouse_event(self, size, event, button, col, row, focus):
         S.cb([T_MOUSE, button, col, row])
-        return button in mouse
+        if button in mouse:
+            S.wstate += 1
+            return True
+        return False
 
     def render(self, size, focus=False):
         S.cb([T_RENDER])
-        c = urwid.CompositeCanvas(urwid.SolidCanvas(" ", size[0], size[1]))
-        if wc.get("cursor"):
-            c.cursor = (0, 0)
-        return c
+        # an unchanged widget hands out the very same canvas object again (as the canvas cache does)
+        if cache.get("key") != (S.wstate, tuple(size)):
+            c = urwid.CompositeCanvas(urwid.Filler(urwid.Text("S%d" % S.wstate), "top").render(tuple(size)))
+            if wc.get("cursor"):
+                c.cursor = (0, 0)
+            cache["key"], cache["canvas"] = (S.wstate, tuple(size)), c
+        # (the render wrapper of urwid.Widget re-wraps a canvas that is already finalized: hand it out
+        #  un-finalized so that the SAME object reaches Screen.draw_screen, as with a cached widget)
+        cache["canvas"]._widget_info = None
+        return cache["canvas"]
 
     def selectable(self):
         return bool(wc.get("selectable", True))
@@ -135,9 +213,10 @@ class Recorder:
     """stands for the terminal: decodes DEC private mode sequences out of what the screen writes"""
     PAT = re.compile(r"\x1b\[\?([0-9;]+)([hl])")
 
-    def __init__(self, S):
+    def __init__(self, S, grid=None):
         self.S = S
         self.pending = ""
+        self.grid = grid
 
     def write(self, data):
         data = self.pending + data
@@ -147,6 +226,8 @@ class Recorder:
         if m:
             self.pending = data[m.start():]
             data = data[:m.start()]
+        if self.grid is not None:
+            self.grid.feed(data)
         for mo in self.PAT.finditer(data):
             for num in mo.group(1).split(";"):
                 if num:
@@ -217,6 +298,8 @@ def run_hook(case):
 
         def clear(self):
             tr.append([T_CLEAR])
+            # a forced repaint is requested because the terminal may show anything by now
+            grid.garble()
             return Screen.clear(self)
 
         def get_cols_rows(self):
@@ -226,11 +309,12 @@ def run_hook(case):
     def app_handler(signum, frame):
         pass
 
+    grid = Grid(80, 24)                  # Screen.get_cols_rows() falls back to 80x24 without a tty output
     sigs = (signal.SIGWINCH, signal.SIGTSTP, signal.SIGCONT)
     initial = [{0: signal.SIG_DFL, 1: signal.SIG_IGN, 2: app_handler}[x] for x in cfg.get("sig", [0, 0, 0])]
     for s, hd in zip(sigs, initial):
         signal.signal(s, hd)
-    scr = RecScreen(input=in_file, output=Recorder(S), bracketed_paste_mode=bool(cfg.get("paste")),
+    scr = RecScreen(input=in_file, output=Recorder(S, grid), bracketed_paste_mode=bool(cfg.get("paste")),
                     focus_reporting=bool(cfg.get("focus")))
     loop = urwid.SelectEventLoop()
     w = make_widget(S, case["widget"], urwid)
@@ -279,6 +363,9 @@ def run_hook(case):
     state = {"i": 0}
 
     def injector():
+        # the idle callbacks are through: the loop is about to wait.  Does the terminal show the widget?
+        tr.append([T_WAIT])
+        S.shown.append(1 if grid.shows(["S%d" % S.wstate]) else 0)
         i = state["i"]
         state["i"] += 1
         if i < len(rounds):
@@ -304,7 +391,7 @@ def run_hook(case):
             ml.watch_file(r_, fcb)
     # the injector must run AFTER MainLoop.entering_idle in every idle round: register it from an alarm that
     # fires inside the loop (MainLoop.start() has registered its own idle callback by then)
-    loop.alarm(0, lambda: loop.enter_idle(injector))
+    loop.alarm(0, lambda: state.__setitem__("h", loop.enter_idle(injector)))
     for ident in cfg.get("pre_alarms", []):
         ml.set_alarm_in(0, alarm_cb, ident)
     if cfg.get("prestarted"):
@@ -313,18 +400,39 @@ def run_hook(case):
     out = ["ok"]
     try:
         ml.run()
-    except UserExc as e:
+    except (UserExc, UserBaseExc) as e:
         out = ["exc", e.ident, 1 if (S.raised and e is S.raised[-1]) else 0]
     except BaseException as e:     # noqa: B036
         out = ["err", type(e).__name__]
-    final = [sig_id(signal.getsignal(s), scr, app_handler) for s in sigs]
+    def observe():
+        cb_ = 0
+        if tios_before is not None:
+            import termios
+            cb_ = 0 if termios.tcgetattr(in_r) == tios_before else 1
+        return [sig_id(signal.getsignal(s), scr, app_handler) for s in sigs], bool(scr.started), cb_
+    final, started, cbreak = observe()
+    ntrace, nshown, ncb1 = len(tr), len(S.shown), S.n
+    second = None
+    if cfg.get("second_run") and out == ["ok"]:
+        # run() once more on the same MainLoop and Screen: nothing is scripted, the harness quits at the
+        # first wait.  No fault is planned for it.
+        S.plan = {}
+        if "h" in state:
+            loop.remove_enter_idle(state.pop("h"))
+        state["i"] = len(rounds)
+        loop.alarm(0, lambda: state.__setitem__("h", loop.enter_idle(injector)))
+        out2 = ["ok"]
+        try:
+            ml.run()
+        except BaseException as e:     # noqa: B036
+            out2 = ["err", type(e).__name__]
+        sig2, started2, cbreak2 = observe()
+        second = {"out": out2, "shown": S.shown[nshown:], "started": started2, "sig": sig2,
+                  "term": dict(replay_modes(tr), cbreak=cbreak2)}
+    del tr[ntrace:]
+    shown1 = S.shown[:nshown]
     for s in sigs:
         signal.signal(s, signal.SIG_DFL)
-    started = bool(scr.started)
-    cbreak = 0
-    if tios_before is not None:
-        import termios
-        cbreak = 0 if termios.tcgetattr(in_r) == tios_before else 1
     for fd in to_close:
         try:
             os.close(fd)
@@ -341,7 +449,8 @@ def run_hook(case):
             sk.close()
         except OSError:
             pass
-    return {"trace": tr, "out": out, "sig": final, "started": started, "ncb": S.n, "cbreak": cbreak}
+    return {"trace": tr, "out": out, "sig": final, "started": started, "ncb": ncb1, "cbreak": cbreak,
+            "shown": shown1, "second": second}
 
 
 def run_plain(case):
@@ -419,7 +528,7 @@ def run_plain(case):
     out = ["ok"]
     try:
         ml.run()
-    except UserExc as e:
+    except (UserExc, UserBaseExc) as e:
         out = ["exc", e.ident, 1 if (S.raised and e is S.raised[-1]) else 0]
     except BaseException as e:     # noqa: B036
         out = ["err", type(e).__name__]
@@ -541,7 +650,7 @@ def run_pty(case):
     out = ["ok"]
     try:
         ml.run()
-    except UserExc as e:
+    except (UserExc, UserBaseExc) as e:
         out = ["exc", e.ident, 1 if (S.raised and e is S.raised[-1]) else 0]
     except BaseException as e:     # noqa: B036
         out = ["err", type(e).__name__ + ":" + str(e)[:80]]
@@ -833,7 +942,8 @@ class C12(core.Check):
         tr = res["trace"]
         return {"out": res["out"], "started": res["started"], "ncb": res["ncb"],
                 "sig": res["sig"] if case["kind"] == "hook" else list(case["cfg"].get("sig", [0, 0, 0])),
-                "term": dict(replay_modes(tr), cbreak=res.get("cbreak", 0)), "trace": tr}
+                "term": dict(replay_modes(tr), cbreak=res.get("cbreak", 0)), "trace": tr,
+                "shown": res.get("shown", []), "second": res.get("second")}
 
     # ---------- model wire format ----------
     def encode(self, case):
@@ -901,7 +1011,16 @@ class C12(core.Check):
                 trace.append([next(it) for _ in range(ln)])
         except StopIteration:
             return {"malformed": ints[:60]}
-        return {"out": out, "started": started, "ncb": ncb, "sig": sig, "term": term, "trace": trace}
+        # what the property demands where the model is silent: at every wait the terminal shows the widget;
+        # a second run() on the same loop and screen behaves like the first
+        shown = [1] * sum(1 for t in trace if t == [T_WAIT])
+        second = None
+        if case["kind"] == "hook" and case["cfg"].get("second_run") and out == ["ok"]:
+            normal = dict({v: 0 for v in MODES.values()}, cursor=1, plain=0, cbreak=0)
+            second = {"out": ["ok"], "shown": [1], "started": False, "sig": list(case["cfg"].get("sig", [0, 0, 0])),
+                      "term": normal}
+        return {"out": out, "started": started, "ncb": ncb, "sig": sig, "term": term, "trace": trace,
+                "shown": shown, "second": second}
 
     # ---------- oracle (written from the property text; does not use the model) ----------
     def oracle(self, case, res):
@@ -960,6 +1079,23 @@ class C12(core.Check):
                             else "the terminal descriptor is no longer usable after run()")
             msgs += self.order_pty(case, res)
             return msgs
+        # --- the redraw really reaches the terminal: at every wait it shows the widget state ---
+        for k, ok in enumerate(res.get("shown", [])):
+            if not ok:
+                msgs.append(f"wait #{k}: the loop is about to wait but the terminal does not show the widget state "
+                            f"(a requested repaint was not written)")
+                break
+        sec = res.get("second")
+        if sec is not None:
+            if sec["out"] != ["ok"]:
+                msgs.append(f"second run() on the same MainLoop and Screen: {sec['out']}")
+            if not all(sec["shown"]) or not sec["shown"]:
+                msgs.append("second run() on the same MainLoop and Screen: the loop waits but the terminal does not show "
+                            "the widget state (nothing was painted into the fresh alternate buffer)")
+            bad2 = [k for k, v in sorted(sec["term"].items()) if v != (1 if k == "cursor" else 0)]
+            if sec["started"] or bad2 or sec["sig"] != list(cfg.get("sig", [0, 0, 0])):
+                msgs.append(f"second run() on the same MainLoop and Screen: not restored afterwards "
+                            f"(started={sec['started']}, modes={bad2}, handlers={sec['sig']})")
         # --- order of the callbacks, redraw before the loop next waits ---
         msgs += self.order(case, res, bool(fired))
         return msgs
